@@ -65,14 +65,15 @@ Lemma add_in_order (l : lensR) (a : aspec) :
   exists l' new post,
     step l (add_op (List.length (surfs l)) a) = Some l' /\
     positions l' = positions l ++
-      [if Nat.eqb (List.length (surfs l)) 1 then 0
+      [if (Z.of_nat (List.length (surfs l)) =? 1)%Z then 0
        else getZ (O:=ROps) (positions l) (Z.of_nat (List.length (surfs l)) - 1) + last_t l] /\
     last_t l' = a_t a /\
     refs l' = refs l ++ [(snd (last (refs l) (0%nat, 0%nat)), post)] /\
     map s_x (surfs l') = map s_x (surfs l) ++ [a_dx a] /\ map s_y (surfs l') = map s_y (surfs l) ++ [a_dy a] /\
     map s_rx (surfs l') = map s_rx (surfs l) ++ [a_rx a] /\ map s_ry (surfs l') = map s_ry (surfs l) ++ [a_ry a] /\
-    surfs l' = (if s_stop new then map (fun s => with_stop s false) (surfs l) else surfs l) ++ [new] /\
-    s_R new = a_R a /\ s_stop new = a_stop a /\ s_kind new = (match a_kind a with GEven => GEven | GOther => GOther | _ => GStd end) /\
+    surfs l' = (if a_stop a then map (fun s => with_stop s false) (surfs l) else surfs l) ++ [new] /\
+    s_R new = a_R a /\ s_stop new = a_stop a /\
+    s_kind new = (match a_kind a with GEven => GEven | GOther => GOther | _ => GStd end) /\
     waves l' = waves l /\ prims l' = prims l /\ ap l' = ap l.
 Proof.
   intros Hn. set (j := List.length (surfs l)) in *.
@@ -80,11 +81,11 @@ Proof.
   assert (G1 : ((Z.of_nat j <? 0)%Z || (nsurf l <? Z.of_nat j)%Z) = false).
   { unfold nsurf. fold j. destruct (Z.ltb_spec (Z.of_nat j) 0); [lia|]. destruct (Z.ltb_spec (Z.of_nat j) (Z.of_nat j)); [lia|]. reflexivity. }
   rewrite G1.
-  (* material *)
   assert (HP : exists p, nth_error (surfs l) (Z.to_nat (Z.of_nat j - 1)) = Some p /\
                          snd (last (refs l) (0%nat, 0%nat)) = s_mpost p).
-  { destruct (surfs l) as [|s0 ss] eqn:ES using rev_ind; [simpl in Hn; unfold j in Hn; simpl in Hn; lia|].
-    clear IHl0. exists s0. unfold j. rewrite app_length. cbn [List.length].
+  { assert (NE : surfs l <> []) by (intros E; unfold j in Hn; rewrite E in Hn; simpl in Hn; lia).
+    destruct (exists_last NE) as (l0 & s0 & ES).
+    exists s0. unfold j. rewrite ES, app_length. cbn [List.length].
     replace (Z.to_nat (Z.of_nat (List.length l0 + 1) - 1)) with (List.length l0) by lia.
     split.
     - rewrite nth_error_app2 by lia. rewrite Nat.sub_diag. reflexivity.
@@ -92,39 +93,138 @@ Proof.
   destruct HP as (p & HP & HL).
   unfold cfg_material. destruct (Z.eqb_spec (Z.of_nat j) 0) as [E0|E0]; [lia|]. rewrite HP.
   unfold k_c01_cfg_cs. rops. destruct (Z.eqb_spec (Z.of_nat j) 0) as [E0'|_]; [lia|].
-  assert (HZ : (if (Z.of_nat j =? 1)%Z then IZR 0
-                else getZ (O:=ROps) (positions l) (Z.of_nat j - 1) + last_t l) =
-               (if Nat.eqb j 1 then 0 else getZ (O:=ROps) (positions l) (Z.of_nat j - 1) + last_t l)).
-  { destruct (Z.eqb_spec (Z.of_nat j) 1); destruct (Nat.eqb_spec j 1); try reflexivity; lia. }
   assert (HG : exists g R' k' c', cfg_geometry (O:=ROps) (a_kind a) (a_R a) (a_k a) (a_c a) = (g, R', k', c') /\ R' = a_R a /\
                g = match a_kind a with GEven => GEven | GOther => GOther | _ => GStd end).
   { unfold cfg_geometry. destruct (a_kind a); cbn [isinf_ ROps]; do 4 eexists; repeat split. }
   destruct HG as (g & R' & k' & c' & HG & HR & Hg). rewrite HG.
-  assert (POS : forall (new : surfR), positions
-            (mkL (insert_at (Z.to_nat (Z.of_nat j)) new
-                    (if s_stop new then map (fun s => with_stop s false) (surfs l) else surfs l))
-                 (mats l) 0 [] [] [] [] (ap l)) = positions l ++ [s_z new]).
-  { intros new. unfold positions. cbn [surfs]. rewrite Nat2Z.id.
-    destruct (s_stop new).
-    - replace j with (List.length (map (fun s => with_stop s false) (surfs l))) by (rewrite map_length; reflexivity).
-      rewrite insert_at_end, map_app, map_map. reflexivity.
-    - unfold j. rewrite insert_at_end, map_app. reflexivity. }
-  assert (INS : forall (new : surfR),
-            insert_at (Z.to_nat (Z.of_nat j)) new
-              (if s_stop new then map (fun s => with_stop s false) (surfs l) else surfs l) =
-            (if s_stop new then map (fun s => with_stop s false) (surfs l) else surfs l) ++ [new]).
-  { intros new. rewrite Nat2Z.id. destruct (s_stop new).
+  set (znew := if (Z.of_nat j =? 1)%Z then 0 else getZ (O:=ROps) (positions l) (Z.of_nat j - 1) + last_t l).
+  pose (mk := fun post refl => mkS (O:=ROps) (a_dx a) (a_dy a) znew (a_rx a) (a_ry a) g R' k' c'
+                                   (s_mpost p) post (a_stop a) refl false).
+  assert (INS : forall post refl,
+            insert_at (Z.to_nat (Z.of_nat j)) (mk post refl)
+              (if a_stop a then map (fun s => with_stop s false) (surfs l) else surfs l) =
+            (if a_stop a then map (fun s => with_stop s false) (surfs l) else surfs l) ++ [mk post refl]).
+  { intros post refl. rewrite Nat2Z.id. destruct (a_stop a).
     - replace j with (List.length (map (fun s : surfR => with_stop s false) (surfs l))) by (rewrite map_length; reflexivity).
       apply insert_at_end.
     - apply insert_at_end. }
-  destruct (a_m a) as [| |nn] eqn:EM;
-  (eexists; eexists; eexists; split; [reflexivity|]);
-  cbn [surfs last_t waves prims ap mats];
-  rewrite ?INS; unfold positions, refs; cbn [surfs];
-  repeat match goal with |- context [if ?b then map ?f ?x else ?x] =>
-    match b with s_stop _ => idtac end;
-    let Hb := fresh in destruct b eqn:Hb end;
-  rewrite ?map_app, ?map_map; cbn [map s_z s_x s_y s_rx s_ry s_mpre s_mpost s_R s_stop s_kind with_stop];
-  fold (positions l); fold (refs l); rewrite ?HZ, ?HL;
-  (repeat split; try reflexivity; try assumption).
+  assert (FIN : forall post refl mats',
+    let new := mk post refl in
+    let l' := mkL ((if a_stop a then map (fun s => with_stop s false) (surfs l) else surfs l) ++ [new])
+                  mats' (a_t a) (waves l) (prims l) (pickups l) (solves l) (ap l) in
+    positions l' = positions l ++ [znew] /\ last_t l' = a_t a /\
+    refs l' = refs l ++ [(snd (last (refs l) (0%nat, 0%nat)), post)] /\
+    map s_x (surfs l') = map s_x (surfs l) ++ [a_dx a] /\ map s_y (surfs l') = map s_y (surfs l) ++ [a_dy a] /\
+    map s_rx (surfs l') = map s_rx (surfs l) ++ [a_rx a] /\ map s_ry (surfs l') = map s_ry (surfs l) ++ [a_ry a] /\
+    surfs l' = (if a_stop a then map (fun s => with_stop s false) (surfs l) else surfs l) ++ [new] /\
+    s_R new = a_R a /\ s_stop new = a_stop a /\
+    s_kind new = (match a_kind a with GEven => GEven | GOther => GOther | _ => GStd end) /\
+    waves l' = waves l /\ prims l' = prims l /\ ap l' = ap l).
+  { intros post refl mats'. cbn zeta. unfold mk. rewrite <- HL. unfold positions, refs. cbn [surfs last_t waves prims ap].
+    destruct (a_stop a); rewrite !map_app, ?map_map;
+      cbn [map s_z s_x s_y s_rx s_ry s_mpre s_mpost s_R s_stop s_kind with_stop];
+      repeat split; try reflexivity; assumption. }
+  pose (mkl := fun post refl mats' =>
+    mkL ((if a_stop a then map (fun s => with_stop s false) (surfs l) else surfs l) ++ [mk post refl])
+        mats' (a_t a) (waves l) (prims l) (pickups l) (solves l) (ap l)).
+  destruct (a_m a) as [| |nn] eqn:EM.
+  - exists (mkl (List.length (mats l)) false (mats l ++ [1])), (mk (List.length (mats l)) false), (List.length (mats l)).
+    split; [unfold mkl; rewrite <- INS; reflexivity|]. apply FIN.
+  - exists (mkl (s_mpost p) true (mats l)), (mk (s_mpost p) true), (s_mpost p).
+    split; [unfold mkl; rewrite <- INS; reflexivity|]. apply FIN.
+  - exists (mkl (List.length (mats l)) false (mats l ++ [nn])), (mk (List.length (mats l)) false), (List.length (mats l)).
+    split; [unfold mkl; rewrite <- INS; reflexivity|]. apply FIN.
+Qed.
+
+Lemma getZ_app_last (P : list R) (x : R) : getZ (O:=ROps) (P ++ [x]) (Z.of_nat (List.length P)) = x.
+Proof.
+  rewrite (getZ_of_nat (O:=ROps) (P ++ [x]) (List.length P) 0) by (rewrite app_length; simpl; lia).
+  rewrite app_nth2 by lia. rewrite Nat.sub_diag. reflexivity.
+Qed.
+
+(** state reached by an in-order build, as an invariant over the list of calls made so far *)
+Definition built (ob : aspec) (specs : list aspec) (l : lensR) : Prop :=
+  positions l = vertex_spec (a_t ob) (map a_t specs) /\
+  media_chained (refs l) /\
+  map s_x (surfs l) = map a_dx (ob :: specs) /\ map s_y (surfs l) = map a_dy (ob :: specs) /\
+  map s_rx (surfs l) = map a_rx (ob :: specs) /\ map s_ry (surfs l) = map a_ry (ob :: specs) /\
+  List.length (surfs l) = S (List.length specs) /\
+  (specs <> [] -> getZ (O:=ROps) (positions l) (Z.of_nat (List.length specs)) + last_t l = sumR (map a_t specs)) /\
+  waves l = [] /\ prims l = [].
+
+Theorem build_in_order (ap0 : aptype * R) (ob : aspec) (specs : list aspec) :
+  a_m ob <> MMirror ->
+  exists l, run (empty_lens (O:=ROps) ap0) (build_ops ob specs) = Some l /\ built ob specs l.
+Proof.
+  intros Hob. induction specs as [|a specs IH] using rev_ind.
+  - (* the object surface alone *)
+    unfold build_ops, run, fold_opt. cbn [add_ops_from fold_left obind step add_op].
+    unfold add_surface, cfg_material, empty_lens, nsurf, k_c01_cfg_cs, cfg_geometry. cbn [surfs mats last_t positions List.length map].
+    rops. cbn.
+    destruct (a_m ob) as [| |nn] eqn:EM; [|contradiction|];
+      destruct (a_kind ob); cbn;
+      (eexists; split; [reflexivity|]); unfold built, positions, refs, vertex_spec; cbn;
+      (repeat split; try reflexivity; try (intros H; contradiction)).
+  - destruct IH as (l & ER & B).
+    destruct B as (BP & BM & BX & BY & BRX & BRY & BL & BS & BW & BPr).
+    unfold build_ops in *. rewrite add_ops_from_app. cbn [add_ops_from].
+    rewrite app_comm_cons, run_app, ER. cbn [obind].
+    destruct (add_in_order l a ltac:(lia)) as (l' & new & post & ES & P1 & P2 & P3 & P4 & P5 & P6 & P7 & P8 & _ & _ & _ & P9 & P10 & _).
+    rewrite BL in ES. replace (1 + List.length specs)%nat with (S (List.length specs)) by lia.
+    exists l'. split.
+    { unfold run, fold_opt. cbn [fold_left obind]. rewrite ES. reflexivity. }
+    unfold built. cbn [map]. rewrite !map_app. cbn [map].
+    assert (ZN : (if (Z.of_nat (List.length (surfs l)) =? 1)%Z then 0
+                  else getZ (O:=ROps) (positions l) (Z.of_nat (List.length (surfs l)) - 1) + last_t l)
+                 = 0 + fold_right Rplus 0 (map a_t specs)).
+    { rewrite BL. destruct specs as [|s0 specs'].
+      - cbn. ring.
+      - destruct (Z.eqb_spec (Z.of_nat (S (List.length (s0 :: specs')))) 1) as [E|E]; [cbn [List.length] in E; lia|].
+        replace (Z.of_nat (S (List.length (s0 :: specs'))) - 1)%Z with (Z.of_nat (List.length (s0 :: specs'))) by lia.
+        rewrite BS by discriminate. unfold sumR. ring. }
+    repeat split.
+    + rewrite P1, ZN, BP. unfold vertex_spec. rewrite psums_app. reflexivity.
+    + rewrite P3. apply media_chained_snoc; [exact BM|]. right. reflexivity.
+    + rewrite P4, BX. reflexivity.
+    + rewrite P5, BY. reflexivity.
+    + rewrite P6, BRX. reflexivity.
+    + rewrite P7, BRY. reflexivity.
+    + rewrite P8. rewrite app_length. destruct (a_stop a); rewrite ?map_length, BL, app_length; simpl; lia.
+    + intros _. rewrite P1, P2. rewrite app_length. cbn [List.length].
+      assert (LP : List.length (positions l) = (List.length specs + 1)%nat).
+      { unfold positions. rewrite map_length, BL. lia. }
+      rewrite <- LP. rewrite getZ_app_last. rewrite ZN. rewrite sumR_app. unfold sumR. cbn. ring.
+    + rewrite P9. exact BW.
+    + rewrite P10. exact BPr.
+Qed.
+
+(** thicknesses read back are the ones given (so "running sum" and "thickness" agree) *)
+Corollary build_thicknesses ap0 ob a specs l :
+  run (empty_lens (O:=ROps) ap0) (build_ops ob (a :: specs)) = Some l -> built ob (a :: specs) l ->
+  thk (positions l) = a_t ob :: removelast (map a_t (a :: specs)).
+Proof.
+  intros _ (BP & _). rewrite BP. unfold vertex_spec.
+  change (map a_t (a :: specs)) with (a_t a :: map a_t specs).
+  change (psums 0 (a_t a :: map a_t specs)) with (0 :: psums (0 + a_t a) (map a_t specs)).
+  cbn [thk]. f_equal; [ring|].
+  change (0 :: psums (0 + a_t a) (map a_t specs)) with (psums 0 (a_t a :: map a_t specs)).
+  apply thk_psums.
+Qed.
+
+(** non-vacuous: a cemented doublet with a tilted second surface and the stop on surface 2 *)
+Example build_ex :
+  exists l, run (empty_lens (O:=ROps) (EPDt, 10)) (build_ops
+     (mkA GStd 0 0 [] 100 MAir false 0 0 0 0)
+     [mkA GStd 50 0 [] 5 (MIdeal 1.5) false 0 0 0 0;
+      mkA GEven (-50) (-1) [0.001] 2 (MIdeal 1.6) true 0.1 0 0.01 0;
+      mkA GStd (-200) 0 [] 40 MAir false 0 0 0 0;
+      mkA GStd 0 0 [] 0 MAir false 0 0 0 0]) = Some l /\
+  positions l = [-100; 0; 0 + 5; 0 + 5 + 2; 0 + 5 + 2 + 40].
+Proof.
+  destruct (build_in_order (EPDt, 10) (mkA GStd 0 0 [] 100 MAir false 0 0 0 0)
+     [mkA GStd 50 0 [] 5 (MIdeal 1.5) false 0 0 0 0;
+      mkA GEven (-50) (-1) [0.001] 2 (MIdeal 1.6) true 0.1 0 0.01 0;
+      mkA GStd (-200) 0 [] 40 MAir false 0 0 0 0;
+      mkA GStd 0 0 [] 0 MAir false 0 0 0 0] ltac:(discriminate)) as (l & E & B).
+  exists l. split; [exact E|]. destruct B as (BP & _). rewrite BP. reflexivity.
 Qed.
